@@ -33,6 +33,10 @@ pub struct P18 {
     /// and orderly termination are asserted for 1 and 2)
     #[serde(default)]
     pub command: u8,
+    /// scrut is started from an environment that already carries the documented values
+    /// (LANG=C, LC_ALL=C, TZ=GMT, COLUMNS=80, ...), as CI jobs that pin the locale do
+    #[serde(default)]
+    pub pinned_env: bool,
 }
 
 #[derive(Clone, Debug, Serialize, Deserialize)]
@@ -54,12 +58,13 @@ fn case_strategy() -> BoxedStrategy<Case18> {
         prop_oneof![5 => Just(0u8), 2 => Just(1u8), 1 => Just(2u8)],
         proptest::bool::weighted(0.1),
         prop_oneof![6 => Just(0u8), 1 => Just(1u8), 1 => Just(2u8)],
+        proptest::bool::weighted(0.4),
     )
-        .prop_map(|(mut docs, flag, parse_error, command)| {
+        .prop_map(|(mut docs, flag, parse_error, command, pinned_env)| {
             // one document per slot
             let mut seen = BTreeSet::new();
             docs.retain(|d| seen.insert(d.slot));
-            P18 { docs, flag, parse_error, command }
+            P18 { docs, flag, parse_error, command, pinned_env }
         });
     vec(p, 1..4).prop_map(|procs| Case18 { procs }).boxed()
 }
@@ -156,6 +161,7 @@ fn check_case(c: &Case18) -> V {
         parse_error: bool,
         expect_exit: i32,
         command: u8,
+        pinned_env: bool,
     }
     let mut planned = vec![];
     let mut dump = String::new();
@@ -222,6 +228,7 @@ fn check_case(c: &Case18) -> V {
             parse_error: p.parse_error,
             expect_exit,
             command: p.command,
+            pinned_env: p.pinned_env,
         });
     }
     // start all scrut processes together, sharing one TMPDIR
@@ -234,6 +241,15 @@ fn check_case(c: &Case18) -> V {
                     let argv: Vec<&str> = p.args.iter().map(|x| x.as_str()).collect();
                     let mut cmd = scrut_command(dir, &argv);
                     cmd.env("VERIF_LOG", &p.log);
+                    if p.pinned_env {
+                        cmd.env("LANG", "C")
+                            .env("LANGUAGE", "C")
+                            .env("LC_ALL", "C")
+                            .env("TZ", "GMT")
+                            .env("COLUMNS", "80")
+                            .env("CDPATH", "")
+                            .env("GREP_OPTIONS", "");
+                    }
                     match run_cmd(cmd, None, 120) {
                         Ok(r) => r,
                         Err(e) => inconclusive(&format!("scrut test: {e}")),
@@ -255,6 +271,7 @@ fn check_case(c: &Case18) -> V {
         .label_if(c.procs.iter().any(|p| p.parse_error), "parse_error_class")
         .label_if(c.procs.iter().any(|p| p.flag == 1), "work_directory_flag")
         .label_if(c.procs.iter().any(|p| p.flag == 2), "keep_flag")
+        .label_if(c.procs.iter().any(|p| p.pinned_env), "documented_values_already_in_environment")
         .label_if(c.procs.iter().any(|p| p.command == 1), "update_command")
         .label_if(c.procs.iter().any(|p| p.command == 2), "create_command")
         .label_if(c.procs.iter().any(|p| p.docs.iter().filter(|d| d.slot < 2).count() == 2), "identical_file_names");
